@@ -1,4 +1,5 @@
 import AwsVerif.Proofs.C07.Skeleton
+import AwsVerif.Proofs.C07.Bridge
 import AwsVerif.Proofs.C06.Inv
 /-! The state invariant of the scheduler model and basic consequences. -/
 namespace AwsVerif.Proofs.C07
@@ -20,7 +21,7 @@ def cntAll (s : St) (t : Nat) : Nat :=
 structure SInv (s : St) : Prop where
   cnt : ∀ t, cntAll s t = if s.scheduled t then 1 else 0
   lt : ∀ t, s.scheduled t = true → t < s.ntasks
-  heap : QInv s.timed (owner s) s.timed.items.toList
+  heap : QInv tsCmp s.timed (owner s) s.timed.items.toList
   heapKey : ∀ e ∈ s.timed.items.toList, e.key = s.ts e.uid
   dyn : s.timed.cap = none
   nt : s.ntasks < 2^63
@@ -100,14 +101,14 @@ theorem not_mem_of_not_sched {s : St} (h : SInv s) {t : Nat} (ht : s.scheduled t
   have := cnt_false h ht
   refine ⟨?_, ?_, ?_, ?_⟩ <;> (rw [← List.count_eq_zero]; omega)
 
-theorem _root_.AwsVerif.Proofs.C06.QInv.of_perm {q : PQ} {ow : Nat → Option Elem} {r r' : List Elem} (h : QInv q ow r) (hp : r.Perm r') : QInv q ow r' :=
+theorem _root_.AwsVerif.Proofs.C06.QInv.of_perm {c : Cmp} {q : PQ} {ow : Nat → Option Elem} {r r' : List Elem} (h : QInv c q ow r) (hp : r.Perm r') : QInv c q ow r' :=
   ⟨⟨h.frame.bpok, h.frame.tracks, h.frame.perm.trans hp, fun x e hx ho hm => h.frame.dead x e hx ho (hp.symm.subset hm)⟩,
    h.heap, h.capOK⟩
 
 /-- changing the timestamp of a task that is not in the heap keeps the heap invariant -/
-theorem qinv_owner_update {q : PQ} {ts : Nat → Nat} {r : List Elem} {t v : Nat}
-    (h : QInv q (fun x => some ⟨ts x, x⟩) r) (hd : q.handles t = none) (hr : ∀ e ∈ r, e.uid ≠ t) :
-    QInv q (fun x => some ⟨updF ts t v x, x⟩) r := by
+theorem qinv_owner_update {c : Cmp} {q : PQ} {ts : Nat → Nat} {r : List Elem} {t v : Nat}
+    (h : QInv c q (fun x => some ⟨ts x, x⟩) r) (hd : q.handles t = none) (hr : ∀ e ∈ r, e.uid ≠ t) :
+    QInv c q (fun x => some ⟨updF ts t v x, x⟩) r := by
   refine ⟨⟨h.frame.bpok, ?_, h.frame.perm, ?_⟩, h.heap, h.capOK⟩
   · intro x i hx
     have hne : x ≠ t := by intro hh; rw [hh, hd] at hx; cases hx
